@@ -654,8 +654,6 @@ def stoks(s):
 
 def program_tokens(p):
     """the functions of a Program as token segments (main last)"""
-    if any(n and "short" in ct for (ct, name, n, q) in p.decls):
-        raise Unsupported('arrays of 16-bit elements are outside the Lean C semantics')
     segs = []
     for (ret, name, params, body, inline) in p.funcs:
         if params or ret != 'void':
